@@ -98,7 +98,7 @@ def cases(ctx):
     for _ in range(200 if ctx.quick else 2500):
         dt = rng.choice(S.ALL_DT)
         d = rng.range(1, 7)
-        n = rng.choice([1, 2, d, d + 1, d + 2, 10, 100, 1000])
+        n = rng.choice([1, 2, d, d + 1, d + 2, 10, 100, 1000, 1001, 1001 + d, 1500, 2000, 3000])   # also above MIN_N_TO_USE_RUN_LEN
         xs = vanishing_seq(rng, dt, d, n)
         out.append(("delta", {"dt": dt, "level": rng.choice([0, 4, 8, 12]), "order": d, "gcds": rng.below(2), "chunks": [xs], "kinds": ["vanishing-%d" % d], "drain": 0}))
     return out
